@@ -31,6 +31,9 @@ type C13Op struct {
 	Kind string `json:"kind"` // ls | lp | close | dial (H+1 clients connect to the stream address; nobody accepts them)
 	Addr int    `json:"addr"`
 	H    int    `json:"h"`
+	// Spell: the address is written differently from the others' spelling of the same socket (1: port with a
+	// leading zero, 2: "localhost"); such a listen may fail (the socket is taken) but it must return
+	Spell int `json:"spell,omitempty"`
 }
 
 type C13Case struct {
@@ -60,7 +63,11 @@ func genC13(t *rapid.T) C13Case {
 				kinds = []string{"ls", "ls", "ls", "lp", "close", "close", "close", "close", "dial", "dial"}
 			}
 			k := rapid.SampledFrom(kinds).Draw(t, "kind")
-			plan = append(plan, C13Op{Kind: k, Addr: rapid.IntRange(0, c.Addrs-1).Draw(t, "addr"), H: rapid.IntRange(0, 7).Draw(t, "h")})
+			op := C13Op{Kind: k, Addr: rapid.IntRange(0, c.Addrs-1).Draw(t, "addr"), H: rapid.IntRange(0, 7).Draw(t, "h")}
+			if (k == "ls" || k == "lp") && rapid.IntRange(0, 7).Draw(t, "respell") == 0 {
+				op.Spell = rapid.IntRange(1, 2).Draw(t, "spell")
+			}
+			plan = append(plan, op)
 		}
 		c.Plans = append(c.Plans, plan)
 	}
@@ -115,12 +122,23 @@ func deadlockSignature() (string, string) {
 
 func runC13(c C13Case, info *kit.Info) *kit.Finding {
 	racing := false
-	var transient atomic.Int64
+	var transient, respelled atomic.Int64
 	defer func() {
 		if transient.Load() > 0 {
 			info.Class("listen-retried-after-transient-EADDRINUSE")
 		}
+		if respelled.Load() > 0 {
+			info.Class("listen-under-another-spelling")
+		}
 	}()
+	spelled := map[string]bool{}
+	for _, plan := range c.Plans {
+		for _, op := range plan {
+			if op.Spell > 0 {
+				spelled[fmt.Sprintf("%s%d", op.Kind, op.Addr)] = true
+			}
+		}
+	}
 	for rep := 0; rep < c.Reps; rep++ {
 		mgr := service.NewListenerManager()
 		saddr, paddr := make([]string, c.Addrs), make([]string, c.Addrs)
@@ -141,17 +159,38 @@ func runC13(c C13Case, info *kit.Info) *kit.Finding {
 		errs := make(chan *kit.Finding, len(c.Plans)*16)
 		envErr := make(chan string, 64)
 		start := make(chan struct{})
-		listen := func(kind string, a int) (io.Closer, *kit.Finding) {
+		listen := func(kind string, a int, spell ...int) (io.Closer, *kit.Finding) {
 			var h io.Closer
 			var err error
 			addr := saddr[a]
+			if kind == "lp" {
+				addr = paddr[a]
+			}
+			if len(spell) > 0 && spell[0] > 0 {
+				// another spelling of the same socket: whether it can be had depends on who holds the socket
+				// right now; only that the call returns is judged (by the watchdog around the plans)
+				_, port, _ := net.SplitHostPort(addr)
+				alt := "127.0.0.1:0" + port
+				if spell[0] == 2 {
+					alt = "localhost:" + port
+				}
+				if kind == "ls" {
+					h, err = mgr.ListenStream(alt)
+				} else {
+					h, err = mgr.ListenPacket(alt)
+				}
+				respelled.Add(1)
+				if err != nil {
+					return nil, nil
+				}
+				return h, nil
+			}
 			if kind == "ls" {
 				h, err = mgr.ListenStream(addr)
 			} else {
-				addr = paddr[a]
 				h, err = mgr.ListenPacket(addr)
 			}
-			for attempt := 0; err != nil && strings.Contains(err.Error(), "address already in use") && attempt < 20; attempt++ {
+			for attempt := 0; err != nil && strings.Contains(err.Error(), "address already in use") && attempt < 20 && !spelled[fmt.Sprintf("%s%d", kind, a)]; attempt++ {
 				// Another process probing for a free port holds a port for an instant (and a concurrent listen of this
 				// case may succeed right after): only a refusal that persists is the manager's doing.
 				time.Sleep(time.Duration(1+attempt) * time.Millisecond)
@@ -161,6 +200,9 @@ func runC13(c C13Case, info *kit.Info) *kit.Finding {
 					h, err = mgr.ListenPacket(addr)
 				}
 				transient.Add(1)
+			}
+			if err != nil && strings.Contains(err.Error(), "address already in use") && spelled[fmt.Sprintf("%s%d", kind, a)] {
+				return nil, nil // a handle under another spelling of this address may hold the socket
 			}
 			if err != nil {
 				if strings.Contains(err.Error(), "address already in use") && !kit.PortOwnedBySelf(kind == "lp", addr) {
@@ -212,7 +254,7 @@ func runC13(c C13Case, info *kit.Info) *kit.Finding {
 				for _, op := range plan {
 					switch op.Kind {
 					case "ls", "lp":
-						h, f := listen(op.Kind, op.Addr)
+						h, f := listen(op.Kind, op.Addr, op.Spell)
 						if f != nil {
 							errs <- f
 							return
